@@ -521,7 +521,7 @@ Proof.
   unfold rqb_done, done_status, src_c03_done_stop, src_c03_done_step_ok, src_c03_done_status,
     src_c03_rqb_iter_ok, src_c03_rqb_converged.
   destruct (Z.eqb status 2) eqn:E; [intros _; apply Z.eqb_eq; exact E|].
-  destruct (negb (Z.eqb status 0) && valid); simpl; intro H; discriminate.
+  destruct (Z.eqb status 0); destruct valid; simpl; intro H; discriminate.
 Qed.
 
 Lemma fpba_done_converged status valid : fpba_done status valid = Some 1%Z -> status = 2%Z.
@@ -529,7 +529,7 @@ Proof.
   unfold fpba_done, done_status, src_c03_done_stop, src_c03_done_step_ok, src_c03_done_status,
     src_c03_fpba_iter_ok, src_c03_fpba_converged.
   destruct (Z.eqb status 2) eqn:E; [intros _; apply Z.eqb_eq; exact E|].
-  destruct (negb (Z.eqb status 0) && valid); simpl; intro H; discriminate.
+  destruct (Z.eqb status 0); destruct valid; simpl; intro H; discriminate.
 Qed.
 
 (* ---- ellipsoid ---------------------------------------------------------------------------------------------------- *)
